@@ -233,6 +233,22 @@ class Ctx:
             self.ok(rule, key, "%s: propagates the error of %s" % (f.id, fmt(inner)[:160]),
                     loc="%s:%s" % (f.file, e.line))
             return inner
+        # the explicit spelling: `match inner { Err(..)/None => return <refusal>, Ok(v)/Some(v) => v }`
+        from pat import synthetic_wrappers
+        for e in g.edges:
+            c = e.cond
+            if c[0] != "variant" or c[2] not in ("Err", "None") or not c[3]:
+                continue
+            subj = c[1]
+            if not (callee(subj) or any(callee(w) for w in synthetic_wrappers(subj))):
+                continue
+            kinds = set(rd.kind for rd in e.leads)
+            if not (kinds and kinds <= set(refusal)):
+                continue
+            if dominates and not g.dominates_accepts(e, refusal):
+                continue
+            self.ok(rule, key, "%s: refuses when %s fails (explicit match)" % (f.id, fmt(subj)[:160]), loc="%s:%s" % (f.file, e.line))
+            return subj
         # also accept a tail call `return callee(...)` (the callee's Result is returned as is)
         for rd in g.retdefs:
             if rd.kind == "call" and rd.expr is not None and callee(rd.expr):
